@@ -376,12 +376,15 @@ def parallelEdges (g : Graph) : Bool :=
         AdaptaVerif.Model.Bends.orthogonalDirection (g.pt u) (g.pt e'.to)
 
 open AdaptaVerif.Model.AStar in
-/-- `none`: model search and C++ route agree (or no dump / graph too large); `some msg`: they differ.
-    Compared: the as-coded cost (`search`'s g: hop lengths + bend penalties, last hop from a cost target
-    free) of the C++ `route()` against the g of the node the model search returns, exactly; and the
-    vertex sequence itself (the model reproduces time stamps and edge order, so ties are broken alike;
-    only several edges in the same direction at one vertex — bypass edges around other connectors' end
-    points — make the C++ order history dependent, there a different path of equal cost is accepted). -/
+/-- `none`: model search and C++ agree (or no dump / graph too large); `some msg`: they differ.
+    Compared, all exactly: (1) `route()` against the model's route = the loop-erased node chain
+    (`routeOfChain`: what the per-vertex `pathNext` pointers yield), vertex for vertex; (2) the sequence
+    of nodes the real search pops (DebugHandler tap: vertex + previous vertex) against the model's DONE
+    list — the model reproduces time stamps and edge order, so ties are broken alike; (3) with the optional
+    library hook, g / exploredCount / PENDING.size() / timestamp at the goal.  Only where a vertex has
+    two edges in one direction to different points (bypass edges around other connectors' end points;
+    the C++ list order is then history dependent) a different route of equal as-coded cost (`search`'s g:
+    hop lengths + bend penalties, last hop from a cost target free) or a different pop order is accepted. -/
 def checkAStar (c : Case) (pen : Rat) (route : List (Rat × Rat)) : Option String × List (String × Nat) := Id.run do
   if (c.get1 "agskip").isSome then return (none, [("astar.skipped-large", 1)])
   let some xs := (c.get1 "agx").bind nums? | return (none, [("astar.nodump", 1)])
@@ -414,7 +417,7 @@ def checkAStar (c : Case) (pen : Rat) (route : List (Rat × Rat)) : Option Strin
     let epsFree := match run0 with | .found b0 d0 => b0 == b && d0.length == done.length | _ => false
     let isCT := fun (v : Nat) => (costTargets g).any fun ct => ct.1 = v
     -- consistency of the estimator on this graph (hypotheses of Props.C05AStar.graph_search_optimal),
-    -- evaluated on every 4th case
+    -- evaluated on every 8th case, graphs up to 250 vertices
     let consStats : List (String × Nat) :=
       if c.idx % 8 != 0 || xs.size > 250 then [] else
         let fi := g.firstInconsistent
